@@ -46,6 +46,7 @@ type Run struct {
 	Seed  int64
 	Level string
 	Root  string // /verif
+	Out   string // where evidence/ and replays/ are written (Root unless VERIF_OUT is set, e.g. for mutant runs)
 
 	mu          sync.Mutex
 	start       time.Time
@@ -92,6 +93,10 @@ func Start(prop, level string) *Run {
 	}
 	if r.Root == "" {
 		r.Root = "/verif"
+	}
+	r.Out = r.Root
+	if o := os.Getenv("VERIF_OUT"); o != "" {
+		r.Out = o
 	}
 	r.Seed = 1
 	if s := os.Getenv("VERIF_SEED"); s != "" {
@@ -211,7 +216,7 @@ func (r *Run) Violation(key, what string, witness any) {
 	if _, seen := r.violations[full]; seen {
 		return
 	}
-	dir := filepath.Join(r.Root, "replays")
+	dir := filepath.Join(r.Out, "replays")
 	os.MkdirAll(dir, 0o777)
 	r.replayN++
 	path := filepath.Join(dir, fmt.Sprintf("%s-%s-%d-%d.json", r.Prop, r.Tier, r.Seed, r.replayN))
@@ -358,7 +363,7 @@ func (r *Run) Finish() {
 		fmt.Fprintf(os.Stderr, "HARNESS-ERROR: cannot marshal evidence: %v\n", err)
 		os.Exit(2)
 	}
-	dir := filepath.Join(r.Root, "evidence")
+	dir := filepath.Join(r.Out, "evidence")
 	os.MkdirAll(dir, 0o777)
 	if err := os.WriteFile(filepath.Join(dir, r.Prop+".json"), append(data, '\n'), 0o666); err != nil {
 		fmt.Fprintf(os.Stderr, "HARNESS-ERROR: cannot write evidence: %v\n", err)
